@@ -97,6 +97,7 @@ RULES = {
         ("BaseProduct", "version", ["1.", "1..2", "1a", None], "RELEASE_VERSION_RE"),
         ("BaseProduct", "name", NOT_A_STRING, "attribute doc: (str)"),
         ("Variant", "id", ["a-b", "a b", "", None, "x.y", "S\u00e9rveur", "Server\u0662", "Stra\u00dfe", "\u0421\u0435\u0440\u0432\u0435\u0440", "Server\u00b2", "\uff33erver"] + BAD_VARIANT_IDS, "attribute doc: variant ID; validator comment ^[a-zA-Z0-9]+$ (dash separates UID parts)"),
+        ("Variant", "uid", [None, 5], "attribute doc: (str) variant UID"),
         ("Variant", "name", ["", None, 5], "attribute doc: variant name (pretty text), required"),
         ("Variant", "type", ["bogus", None, "Variant", ""], "composeinfo.VARIANT_TYPES"),
         ("Variant", "arches", [set(), []], "attribute doc: set of arches for a variant (non-empty)"),
